@@ -25,6 +25,7 @@ pub fn run(ctx: Ctx) -> ! {
     let reqs = AtomicU64::new(0);
     let colls = AtomicU64::new(0);
     let bootstrap = AtomicU64::new(0);
+    let bootstrap_example: std::sync::Mutex<Option<String>> = std::sync::Mutex::new(None);
     let unreadable = AtomicU64::new(0);
     let sum = explore::sweep(&POST_BYRON, &|_| true, bounds, &|b, v, nd| {
         if !v.accepted() {
@@ -92,6 +93,10 @@ pub fn run(ctx: Ctx) -> ! {
                     }
                     PayCred::Bootstrap => {
                         bootstrap.fetch_add(1, Ordering::Relaxed);
+                        let mut e = bootstrap_example.lock().unwrap();
+                        if e.as_ref().map(|x| (b.label.len(), &b.label) < (x.len(), x)).unwrap_or(true) {
+                            *e = Some(b.label.clone());
+                        }
                     }
                     _ => {}
                 }
@@ -121,6 +126,12 @@ pub fn run(ctx: Ctx) -> ! {
     }
     if extra.load(Ordering::Relaxed) == 0 || reqs.load(Ordering::Relaxed) == 0 || colls.load(Ordering::Relaxed) == 0 {
         crate::fail("C35 vacuous: no accepted case with extra witnesses / required signers / collateral");
+    }
+    if let Some(l) = bootstrap_example.lock().unwrap().clone() {
+        ctx.note(format!(
+            "diagnostic (stronger than the property text, not a verdict): {} accepted cases spend a UTxO entry locked by a Byron bootstrap address without any witness for it, e.g. {l}",
+            bootstrap.load(Ordering::Relaxed)
+        ));
     }
     found.flush(&ctx);
     let mut cov = sum.coverage(&format!(
